@@ -455,3 +455,68 @@ func GenProgram(t *rapid.T, cfg GenCfg) Program {
 	}
 	return p
 }
+
+// GenReentrant generates a program built around one pattern that plain soup programs produce only rarely: the
+// outer activation touches a few storage slots, then enters a frame that works on the *same* storage (a call back
+// into itself, or a DELEGATECALL/CALLCODE of a pool contract) which touches other slots and ends in a generated
+// terminal (return, stop, revert, invalid, out of gas), and finally the outer activation touches those slots again.
+// Everything a reverted frame may leave behind (warm slots, refunds, dirty storage, logs) becomes visible in the
+// outer frame's gas and results. The selector byte (first call-data byte) steers the inner activation.
+func GenReentrant(t *rapid.T, cfg GenCfg, self string) Program {
+	sel := uint64(rapid.IntRange(1, 3).Draw(t, "re_sel"))
+	slot := func(l string) string { return strconv.Itoa(rapid.IntRange(0, 3).Draw(t, l)) }
+	storage := func(l string) Stmt {
+		switch rapid.IntRange(0, 4).Draw(t, l+"k") {
+		case 0:
+			return Stmt{Op: "sstore", A: slot(l + "s"), B: hexWord(t, l+"v")}
+		case 1:
+			return Stmt{Op: "sstore", A: slot(l + "s"), B: "0x0"}
+		case 2:
+			return Stmt{Op: "sinc", A: slot(l + "s")}
+		default:
+			return Stmt{Op: "sload", A: slot(l + "s"), Sink: genSink(t)}
+		}
+	}
+	var inner Program
+	for i, n := 0, rapid.IntRange(1, 3).Draw(t, "re_ninner"); i < n; i++ {
+		inner = append(inner, storage(fmt.Sprintf("re_in%d", i)))
+	}
+	if rapid.IntRange(0, 3).Draw(t, "re_innerlog") == 0 {
+		inner = append(inner, Stmt{Op: "log", N: 1, M: 3})
+	}
+	if len(cfg.CallTargets) > 0 && rapid.IntRange(0, 3).Draw(t, "re_innercall") == 0 {
+		inner = append(inner, Stmt{Op: "call", A: pick(t, "re_innercallee", cfg.CallTargets), B: "0", N: genGas(t), Sink: genSink(t)})
+	}
+	switch rapid.IntRange(0, 5).Draw(t, "re_term") {
+	case 0, 1:
+		inner = append(inner, Stmt{Op: "revert", N: uint64(rapid.IntRange(0, 32).Draw(t, "re_rlen"))})
+	case 2:
+		inner = append(inner, Stmt{Op: "invalid"})
+	case 3:
+		inner = append(inner, Stmt{Op: "burn", N: 1 << 30}, Stmt{Op: "stop"}) // runs out of gas
+	case 4:
+		inner = append(inner, Stmt{Op: "return", N: uint64(rapid.IntRange(0, 32).Draw(t, "re_retlen"))})
+	default:
+		inner = append(inner, Stmt{Op: "stop"})
+	}
+	p := Program{{Op: "ifcd", N: sel, Sub: inner}}
+	for i, n := 0, rapid.IntRange(0, 2).Draw(t, "re_npre"); i < n; i++ {
+		p = append(p, storage(fmt.Sprintf("re_pre%d", i)))
+	}
+	op := pick(t, "re_op", []string{"call", "call", "delegatecall", "callcode", "staticcall"})
+	callee := self
+	if (op == "delegatecall" || op == "callcode") && len(cfg.CallTargets) > 0 && rapid.Bool().Draw(t, "re_other") {
+		callee = pick(t, "re_callee", cfg.CallTargets)
+	}
+	p = append(p, Stmt{Op: op, A: callee, B: "0", N: genGas(t), Sink: genSink(t), Data: fmt.Sprintf("%02x", sel), M: uint64(rapid.IntRange(0, 1).Draw(t, "re_retsz"))})
+	for i, n := 0, rapid.IntRange(1, 3).Draw(t, "re_npost"); i < n; i++ {
+		p = append(p, storage(fmt.Sprintf("re_post%d", i)))
+	}
+	if !cfg.NoGasRead && rapid.Bool().Draw(t, "re_gas") {
+		p = append(p, Stmt{Op: "ctx", A: "GAS", Sink: "log"})
+	}
+	if rapid.IntRange(0, 3).Draw(t, "re_outerterm") == 0 {
+		p = append(p, GenStmt(t, cfg, true))
+	}
+	return p
+}
